@@ -990,7 +990,7 @@ func (r *messageReader) Read(b []byte) (int, error) {
 				c.readMaskPos = maskBytes(c.readMaskKey, c.readMaskPos, b[:n])
 			}
 			c.readRemaining -= int64(n)
-			if c.readRemaining > 0 && c.readErr == io.EOF {
+			if (c.readRemaining > 0 || !c.readFinal) && c.readErr == io.EOF {
 				c.readErr = errUnexpectedEOF
 			}
 			return n, c.readErr
